@@ -877,6 +877,7 @@ pub fn generate(seed: u64, case: u64, max_steps: usize) -> Ran {
     let mut settled: Vec<bool> = vec![];
     let mut legacy_done = false;
     let locals: Vec<u64> = channels.iter().map(|c| c.0).collect();
+    let mut pending_step: Option<Step> = None;
     for _ in 0..nsteps {
         let (mut h, mut t) = (w.height, w.time);
         if r.chance(1, 3) {
@@ -914,7 +915,9 @@ pub fn generate(seed: u64, case: u64, max_steps: usize) -> Ran {
             }
         };
         let kind = r.below(100);
-        let step = if kind < 18 {
+        let step = if let Some(st) = pending_step.take() {
+            st
+        } else if kind < 18 {
             let d = if r.chance(1, 8) { 2 } else { r.below(2) as usize };
             let funds = match r.below(12) {
                 0 => vec![],
@@ -981,10 +984,22 @@ pub fn generate(seed: u64, case: u64, max_steps: usize) -> Ran {
             } else {
                 let idx = *r.pick(&open);
                 settled[idx] = true;
-                match r.below(3) {
-                    0 => Step::AckOk { h, t, idx },
-                    1 => Step::Fail { h, t, idx, timeout: false },
-                    _ => Step::Fail { h, t, idx, timeout: true },
+                if r.chance(1, 4) {
+                    // the counterparty first sends the vouchers of this very packet back (they are redeemed), and only then
+                    // the packet is reported as failed: there is nothing left on the channel to refund from
+                    let p = w.sent[idx].clone();
+                    let remote = *w.remote_of.get(&p.chan).unwrap_or(&0);
+                    pending_step = Some(Step::Fail { h, t, idx, timeout: r.chance(1, 2) });
+                    Step::Recv {
+                        h, t, src_port: 0, src_chan: remote, dest_chan: p.chan,
+                        data: Some(PData { amount: Uint128::new(p.amount), denom: PDen::Voucher { port: 0, chan: remote, base: Base::Key(p.key) }, receiver: Arg::Id(*r.pick(&user_ids)), memo: None }),
+                    }
+                } else {
+                    match r.below(3) {
+                        0 => Step::AckOk { h, t, idx },
+                        1 => Step::Fail { h, t, idx, timeout: false },
+                        _ => Step::Fail { h, t, idx, timeout: true },
+                    }
                 }
             }
         } else if kind < 88 {
